@@ -234,8 +234,11 @@ def doc_systems(ty, c):
 class Terms(object):
     """True error terms of one simulated VNA (exact)."""
 
-    def __init__(self, ty, r, c, rng):
+    def __init__(self, ty, r, c, rng, scale=1):
+        """scale: common factor of every raw measurement (receiver units): M = scale * (M of the unscaled VNA), obtained by
+        scaling the terms that carry the measurement (Ts, Ti / Us, Ui / us, ui, and the leakage El)."""
         self.ty, self.r, self.c = ty, r, c
+        self.scale = Fraction(scale)
         P = self.P = max(r, c)
 
         def small():
@@ -275,6 +278,19 @@ class Terms(object):
                 self.cols.append({"um": [near1() for _ in range(r)], "ui": small(),
                                   "ux": [small() for _ in range(r)], "us": near1()})
         self.El = [[(small() if (i != j and has_leak(ty)) else ZERO) for j in range(c)] for i in range(r)]
+        if self.scale != 1:
+            g = QI(self.scale)
+
+            def sm(X):
+                return [[x * g for x in row] for row in X]
+            if ty in ("T8", "TE10", "T16"):
+                self.A, self.B = sm(self.A), sm(self.B)         # M = (Ts S + Ti)(Tx S + Tm)^-1
+            elif ty in ("U8", "UE10", "U16"):
+                self.B, self.D = sm(self.B), sm(self.D)         # M = (Um - S Ux)^-1 (S Us - Ui)
+            else:
+                for t in self.cols:
+                    t["ui"], t["us"] = t["ui"] * g, t["us"] * g
+            self.El = sm(self.El)
 
     # ------------------------------------------------------------------ physics: M from S
     def measure(self, S):
